@@ -178,6 +178,38 @@ pub fn drive(args: &[String]) {
         let m3 = vec![vec![t, t * t - k * PRIME, 0], vec![1, t, 0], vec![3, -5, 1]];
         if m3[0][1].abs() <= 1_000_000_000 { emit_all(&mut sink, &m3, &vec![vec![1], vec![2], vec![3]], "singular mod prime"); }
     }
+    // barycentric placement of random connected periodic graphs (pgraphs.rs is a client of the p-adic solver)
+    {
+        use rust_dsymbols::pgraphs::{PeriodicGraph, VectorLabelledEdge};
+        for it in 0..(n / 2).max(20) {
+            let d = rng.gen_range(1..=3usize);
+            let nv = rng.gen_range(1..=6usize);
+            let maxs: i64 = *[1i64, 2, 5, 1000].choose(&mut rng).unwrap();
+            let mut edges: Vec<(usize, usize, Vec<i64>)> = vec![];
+            // spanning tree, then extra edges and loops; canonical and distinct by construction
+            for v in 2..=nv { let u = rng.gen_range(1..v); edges.push((u, v, (0..d).map(|_| rng.gen_range(-maxs..=maxs)).collect())); }
+            for _ in 0..rng.gen_range(d..=d + 4) {
+                let a = rng.gen_range(1..=nv); let b = rng.gen_range(1..=nv);
+                let (h, t) = (a.min(b), a.max(b));
+                let sh: Vec<i64> = if h == t { let mut x: Vec<i64> = (0..d).map(|_| rng.gen_range(0..=maxs)).collect(); if x.iter().all(|&c| c == 0) { x[0] = 1; } x }
+                                   else { (0..d).map(|_| rng.gen_range(-maxs..=maxs)).collect() };
+                if !edges.iter().any(|e| e.0 == h && e.1 == t && e.2 == sh) { edges.push((h, t, sh)); }
+            }
+            let _ = it;
+            let mut e = json!({"ev": "barycentric", "dim": d, "edges": edges.iter().map(|(h, t, s)| json!([h, t, s])).collect::<Vec<_>>()});
+            pending(&e);
+            match catch(|| {
+                let g = PeriodicGraph::from(edges.iter().map(|(h, t, s)| { let mut m = VecMatrix::<i64>::new(d, 1); for k in 0..d { m[k][0] = s[k]; } VectorLabelledEdge::make(*h, *t, m) }).collect::<Vec<_>>());
+                let verts = g.vertices().clone();
+                let pos: Vec<Vec<Value>> = verts.iter().map(|&v| { let p = g.position(v); (0..d).map(|k| rat(&p[k][0])).collect() }).collect();
+                (verts, pos, g.edges().len())
+            }) {
+                Ok((verts, pos, ne)) => { e["verts"] = json!(verts); e["pos"] = json!(pos); if ne != edges.len() { e["panic"] = json!("the graph does not hold the edges it was given"); } }
+                Err(m) => { e["panic"] = json!(m); }
+            }
+            sink.emit(e);
+        }
+    }
     sink.flush();
     println!("{}", json!({"events": sink.n}));
 }
